@@ -23,6 +23,7 @@ type variant struct {
 type verdict struct {
 	key    string
 	detail string
+	at     string // keyDump6: input-field-default | directive-argument | both
 }
 
 func under(path, prefix string) (string, bool) {
@@ -116,7 +117,67 @@ func isNegative(v *Val) bool {
 	return false
 }
 
+// keyDump6: ONE defect - codegen/templates.Dump renders a float64 with "%f", so a Float default that the
+// generator writes into Go source (input field defaults, arguments of directives applied in the schema)
+// keeps 6 decimals. The key is used only for a difference with exactly that signature at such a position.
+const keyDump6 = "float-default:rendered-into-generated-code-with-6-decimals"
+
+// judge: the verdict on the case itself, then on what @dflt received; a difference that is not the
+// signature of keyDump6 takes precedence over one that is.
 func judge(sch *Schema, cs *Case, vr *variant, cc *conc, cmd *ur.C02Case, o *ur.C02Obs) *verdict {
+	v := judgeCase(sch, cs, vr, cc, cmd, o)
+	if v != nil && v.key != keyDump6 {
+		return v
+	}
+	dv := judgeDirs(sch, cs, vr, cc, cmd, o)
+	if dv != nil && dv.key != keyDump6 {
+		return dv
+	}
+	switch {
+	case v != nil && dv != nil:
+		return &verdict{keyDump6, v.detail + "\nand: " + dv.detail, "both"}
+	case dv != nil:
+		return dv
+	}
+	return v
+}
+
+// judgeDirs: every invocation of the schema directive @dflt received the arguments the specification
+// prescribes for its site (DirSees). Whether it is invoked at all is not judged here (configuration).
+func judgeDirs(sch *Schema, cs *Case, vr *variant, cc *conc, cmd *ur.C02Case, o *ur.C02Obs) *verdict {
+	var six *verdict
+	for _, d := range o.Dirs {
+		ctx := fmt.Sprintf("configuration %s; %s  variables %s; @dflt invoked at path %s with tag %q received %s", vr.v.Name, cmd.Query, cmd.Vars, d.Path, d.Tag, d.Args)
+		st := sch.byTag[d.Tag]
+		if st == nil {
+			return &verdict{"dirarg:unknown-site:" + d.Tag, "the directive received a tag that names no application site\n" + ctx, ""}
+		}
+		ct, err := parseCanon(d.Args)
+		if err != nil || ct.K != "list" {
+			vlib.Infra("cannot parse canonical directive arguments %q: %v", d.Args, err)
+		}
+		if len(ct.L) != len(sch.DirDef) || len(st.Sees.F) != len(sch.DirDef) {
+			vlib.Infra("@dflt: %d arguments observed, %d declared, %d prescribed", len(ct.L), len(sch.DirDef), len(st.Sees.F))
+		}
+		m := &cmp{sch: sch, binds: vr.binds, c: cc, all: true}
+		for i, a := range sch.DirDef {
+			if st.Sees.F[i].K != a.Name {
+				vlib.Infra("@dflt: prescribed argument order differs from the declaration")
+			}
+			if df := m.match(a.Type, st.Sees.F[i].V, ct.L[i], "@dflt("+d.Tag+")."+a.Name); df != "" {
+				return &verdict{"dirarg:wrong-value:" + d.Tag + ":" + a.Name,
+					"a directive applied in the schema did not receive the argument value the schema states: " + df + "\nprescribed " + st.Sees.String() + "\n" + ctx, ""}
+			}
+		}
+		if len(m.sixDec) > 0 && six == nil {
+			six = &verdict{keyDump6, "a directive applied in the schema received a Float argument cut to 6 decimals: " + strings.Join(m.sixDec, "; ") +
+				"\nprescribed " + st.Sees.String() + " (application " + st.App.String() + ")\n" + ctx, "directive-argument"}
+		}
+	}
+	return six
+}
+
+func judgeCase(sch *Schema, cs *Case, vr *variant, cc *conc, cmd *ur.C02Case, o *ur.C02Obs) *verdict {
 	generic := func(what string) string {
 		return fmt.Sprintf("%s:%s(%s):%s:%s", what, cs.Shape, cs.sh.Type.String(), cs.Src.String(), cs.Val.kindOf())
 	}
@@ -124,7 +185,7 @@ func judge(sch *Schema, cs *Case, vr *variant, cc *conc, cmd *ur.C02Case, o *ur.
 		vr.v.Name, cmd.Query, cmd.Vars, cs.Shape, cs.sh.Type.String(), cs.Src.String(), cs.Val.String(),
 		cs.Out.OK, cs.Out.V.String(), cs.Out.Faults, cs.Out.Soft, o.Called, o.Args, o.Gate, o.Errs)
 	if o.Hung {
-		return &verdict{generic("hang"), "the operation did not finish within 10 s\n" + ctx}
+		return &verdict{generic("hang"), "the operation did not finish within 10 s\n" + ctx, ""}
 	}
 	wr := map[string]*Val{}
 	wrappers(cs.Val, wr)
@@ -136,20 +197,20 @@ func judge(sch *Schema, cs *Case, vr *variant, cc *conc, cmd *ur.C02Case, o *ur.
 		if cs.Src.K == "var" && nullInListOfLists(cs.sh.Type, cs.Val) {
 			key = "var:null-in-list-of-lists:panic"
 		}
-		return &verdict{key, "a panic escaped the executor: " + o.Panic + "\n" + ctx}
+		return &verdict{key, "a panic escaped the executor: " + o.Panic + "\n" + ctx, ""}
 	}
 	if len(o.Recov) > 0 && cs.Src.K == "lit" && hasClassOutsideInt64(cs.Val) && !builtin[cs.sh.Type.Base()] {
 		return &verdict{"custom-scalar:int-literal-beyond-int64:panic-in-argument-map",
-			"an integer literal outside int64 for a custom scalar panics in ast.arg2map (recovered): the error is reported at the field's path, not the argument's: " + strings.Join(o.Recov, "; ") + "\n" + ctx}
+			"an integer literal outside int64 for a custom scalar panics in ast.arg2map (recovered): the error is reported at the field's path, not the argument's: " + strings.Join(o.Recov, "; ") + "\n" + ctx, ""}
 	}
 	if len(o.Recov) > 0 && cs.Src.K == "var" && cs.Val.T == "null" && cs.sh.Type.NN && o.Called == 0 {
-		return &verdict{"nonnull:explicit-null-through-variable", "explicit null for a non-null input object through a nullable variable: unmarshalInput panics (recovered), reported at the field's path: " + strings.Join(o.Recov, "; ") + "\n" + ctx}
+		return &verdict{"nonnull:explicit-null-through-variable", "explicit null for a non-null input object through a nullable variable: unmarshalInput panics (recovered), reported at the field's path: " + strings.Join(o.Recov, "; ") + "\n" + ctx, ""}
 	}
 	if len(o.Recov) > 0 {
-		return &verdict{generic("recovered-panic"), "gqlgen recovered a panic: " + strings.Join(o.Recov, "; ") + "\n" + ctx}
+		return &verdict{generic("recovered-panic"), "gqlgen recovered a panic: " + strings.Join(o.Recov, "; ") + "\n" + ctx, ""}
 	}
 	if o.Others > 0 || o.Called > 1 {
-		return &verdict{generic("resolver-count"), "unexpected resolver invocations\n" + ctx}
+		return &verdict{generic("resolver-count"), "unexpected resolver invocations\n" + ctx, ""}
 	}
 	// where did the errors go?
 	type loc struct {
@@ -164,7 +225,7 @@ func judge(sch *Schema, cs *Case, vr *variant, cc *conc, cmd *ur.C02Case, o *ur.
 		}
 		rest, ok := under(e.P, "variable")
 		if !ok {
-			return &verdict{generic("errpath"), fmt.Sprintf("request error at unexpected path %q\n%s", e.P, ctx)}
+			return &verdict{generic("errpath"), fmt.Sprintf("request error at unexpected path %q\n%s", e.P, ctx), ""}
 		}
 		name := strings.SplitN(rest, ".", 2)[0]
 		if name == "v" {
@@ -177,16 +238,16 @@ func judge(sch *Schema, cs *Case, vr *variant, cc *conc, cmd *ur.C02Case, o *ur.
 	for _, e := range o.Errs {
 		sub, ok := under(e.P, "f.x")
 		if !ok {
-			return &verdict{generic("errpath"), fmt.Sprintf("error at path %q, which is not the argument's path f.x\n%s", e.P, ctx)}
+			return &verdict{generic("errpath"), fmt.Sprintf("error at path %q, which is not the argument's path f.x\n%s", e.P, ctx), ""}
 		}
 		locs = append(locs, loc{sub, true})
 	}
 	called := o.Called == 1
 	if called && len(locs) > 0 {
-		return &verdict{generic("called-and-error"), "the resolver was called although an input error was reported\n" + ctx}
+		return &verdict{generic("called-and-error"), "the resolver was called although an input error was reported\n" + ctx, ""}
 	}
 	if !called && len(locs) == 0 {
-		return &verdict{generic("silently-dropped"), "the resolver was not called and no error was reported\n" + ctx}
+		return &verdict{generic("silently-dropped"), "the resolver was not called and no error was reported\n" + ctx, ""}
 	}
 	if !cs.Out.OK {
 		if called {
@@ -203,11 +264,11 @@ func judge(sch *Schema, cs *Case, vr *variant, cc *conc, cmd *ur.C02Case, o *ur.
 					}
 				}
 			}
-			return &verdict{key, "the input cannot be coerced, but the resolver was called\n" + ctx}
+			return &verdict{key, "the input cannot be coerced, but the resolver was called\n" + ctx, ""}
 		}
 		for _, l := range locs {
 			if l.hasPath && !related(l.sub, cs.Out.Faults, cs.Out.Soft) {
-				return &verdict{generic("errpath"), fmt.Sprintf("error reported at %q below the argument; the uncoercible positions are %v\n%s", l.sub, cs.Out.Faults, ctx)}
+				return &verdict{generic("errpath"), fmt.Sprintf("error reported at %q below the argument; the uncoercible positions are %v\n%s", l.sub, cs.Out.Faults, ctx), ""}
 			}
 		}
 		return nil
@@ -220,11 +281,11 @@ func judge(sch *Schema, cs *Case, vr *variant, cc *conc, cmd *ur.C02Case, o *ur.
 				len(o.Gate) == 1 && strings.Contains(o.Gate[0].M, "used in position expecting type") {
 				key = "varusage:nullable-variable-at-nonnull-argument-with-default:rejected"
 			}
-			return &verdict{key, "the input is coercible, but it was rejected\n" + ctx}
+			return &verdict{key, "the input is coercible, but it was rejected\n" + ctx, ""}
 		}
 		for _, l := range locs {
 			if l.hasPath && !related(l.sub, cs.Out.Soft) {
-				return &verdict{generic("rejected-valid"), fmt.Sprintf("rejected at %q; leniency only exists at %v\n%s", l.sub, cs.Out.Soft, ctx)}
+				return &verdict{generic("rejected-valid"), fmt.Sprintf("rejected at %q; leniency only exists at %v\n%s", l.sub, cs.Out.Soft, ctx), ""}
 			}
 		}
 		return nil
@@ -233,15 +294,19 @@ func judge(sch *Schema, cs *Case, vr *variant, cc *conc, cmd *ur.C02Case, o *ur.
 	if err != nil {
 		vlib.Infra("cannot parse canonical argument text: %v\n%s", err, ctx)
 	}
-	m := &cmp{sch: sch, binds: vr.binds, c: cc}
-	if d := m.match(cs.sh.Type, cs.Out.V, ct, "x"); d != "" {
+	m := &cmp{sch: sch, binds: vr.binds, c: cc, dfl: cs.Out.Dfl}
+	d := m.match(cs.sh.Type, cs.Out.V, ct, "x")
+	if d == "" && len(m.sixDec) > 0 {
+		return &verdict{keyDump6, "an input field's Float default reached the resolver cut to 6 decimals: " + strings.Join(m.sixDec, "; ") + "\n" + ctx, "input-field-default"}
+	}
+	if d != "" {
 		key := generic("wrong-value")
 		for k, w := range wr {
 			if w.V.T == "absent" && w.D.T == "nodef" && strings.Contains(d, "at x."+k+":") {
 				key = "objlit:unbound-variable-field:null-instead-of-absent"
 			}
 		}
-		return &verdict{key, d + "\n" + ctx}
+		return &verdict{key, d + "\n" + ctx, ""}
 	}
 	return nil
 }
